@@ -96,6 +96,7 @@ def verify_function(e: Engine, qname: str) -> FunctionResult:
     e.interest = {}
     # stable statement labels for ghost anchors: <StmtType>#<ordinal in source order>
     e.stmt_labels = {}
+    e.stmt_alias = {}        # name-based anchors, robust against unrelated statements being added: assign:<target>#k, call:<recv>.<method>#k
     counts = {}
 
     def number(node):
@@ -104,6 +105,15 @@ def verify_function(e: Engine, qname: str) -> FunctionResult:
                 tn = type(ch).__name__
                 counts[tn] = counts.get(tn, 0) + 1
                 e.stmt_labels[id(ch)] = f"{tn}#{counts[tn]}"
+                key = None
+                if isinstance(ch, ast.Assign) and len(ch.targets) == 1 and isinstance(ch.targets[0], ast.Name):
+                    key = f"assign:{ch.targets[0].id}"
+                elif isinstance(ch, ast.Expr) and isinstance(ch.value, ast.Call) and isinstance(ch.value.func, ast.Attribute) \
+                        and isinstance(ch.value.func.value, ast.Name):
+                    key = f"call:{ch.value.func.value.id}.{ch.value.func.attr}"
+                if key:
+                    counts[key] = counts.get(key, 0) + 1
+                    e.stmt_alias[id(ch)] = f"{key}#{counts[key]}"
             if not isinstance(ch, (ast.FunctionDef, ast.Lambda, ast.ClassDef)) or ch is fi.node:
                 number(ch)
     number(fi.node)
